@@ -41,7 +41,9 @@ def nodeOf (j : Json) : Except String NodeCfg := do
     rev := ← ratOf (fieldD j "rev" (.num 0)),
     initIL := ← optOf ratOf (fieldD j "initIL" .null),
     initOrders := ← ratOf (fieldD j "initOrders" (.num 0)),
-    initShipments := ← ratOf (fieldD j "initShipments" (.num 0)) }
+    initShipments := ← ratOf (fieldD j "initShipments" (.num 0)),
+    hFn := ← optOf (listOf ratOf) (fieldD j "hFn" .null),
+    pFn := ← optOf (listOf ratOf) (fieldD j "pFn" .null) }
 
 def edgeOf (j : Json) : Except String Edge := do
   let a ← j.getArr?
